@@ -225,7 +225,7 @@ class Transition(object):
     """Outcome of executing one step from a node."""
 
     def __init__(self):
-        self.status = None      # ok | refused | gate | crash | sql-error
+        self.status = None      # ok | refused | crash | sql-error
         self.res = None
         self.spec_after = None
         self.schema = None
@@ -277,11 +277,12 @@ def execute(node, step, check_rows=False, check_unrelated=True):
     ok, diffs = R.sig_equal(res.sig, R.load_sig(ent['sig']),
                             ignore_upgrade_method=True)
     if not ok:
-        tr.status = 'gate'
+        # the signature the implementation simulates is not the documented
+        # effect of the mutation: the transition is judged like any other
+        # (the database is compared with the reference-evolved models) and
+        # the disagreement is carried along (C01 reports it; the children
+        # continue from the implementation's signature)
         tr.gate_diff = diffs
-        tr.fk_violations = O.fk_check('default')
-        tr.schema = O.schema_dump('default')
-        return tr
     tr.status = 'ok'
     tr.schema = O.schema_dump('default')
     tr.discrepancies = schema_discrepancies(tr.schema, ent['schema'],
@@ -356,7 +357,7 @@ def bfs(start_project, depth, judge, level='full', kinds=None,
                     if len(stats['refused_samples']) < 3:
                         stats['refused_samples'].append(
                             {'step': step, 'error': str(tr.res.exc)[:200]})
-                if tr.status == 'gate':
+                if tr.gate_diff:
                     stats['gate'] += 1
                     if len(stats['gate_samples']) < 5:
                         stats['gate_samples'].append(
@@ -391,6 +392,8 @@ def bfs(start_project, depth, judge, level='full', kinds=None,
                     S.canon(jsonable(tr.schema_named))
                 if check_rows:
                     key += '|' + S.canon(jsonable(tr.post_rows))
+                if tr.gate_diff:
+                    key += '|sig:' + S.canon(jsonable(tr.gate_diff))
                 if key in seen:
                     stats['dedup_hits'] += 1
                     continue
